@@ -387,6 +387,23 @@ func (vc *VC) evalCall(x *ECall, env *Env) SVal {
 	case "fresh":
 		v := arg(0)
 		return boolV(le("$A0", objOf(v)))
+	case "blen":
+		// ghost: number of bytes in a buffer.Buffer
+		vc.keyType["buffer.len"] = types.Typ[types.Int]
+		return mkInt(vc.leafLoad(env.mem, "buffer.len", SInt, objOf(arg(0)), "0"))
+	case "bobj":
+		// ghost: the object holding a buffer.Buffer's bytes (its bytes start at offset 0)
+		return mkInt(vc.leafLoad(env.mem, "buffer.obj", SInt, objOf(arg(0)), "0"))
+	case "bytesOf":
+		// the byte array of object id o in the current state
+		return SVal{K: KArr, S: sel(vc.memGet(env.mem, "uint8", SInt), arg(0).S)}
+	case "ghost":
+		// ghost(key, x): ghost cell of object x under a named key (Int-valued)
+		id, ok := x.Args[0].(*EIdent)
+		if !ok {
+			unsup("ghost(key, x)")
+		}
+		return mkInt(vc.leafLoad(env.mem, "ghost."+id.Name, SInt, objOf(arg(1)), "0"))
 	case "ite":
 		c := arg(0)
 		return vc.iteVal(c.S, arg(1), arg(2))
